@@ -80,6 +80,8 @@ def cases(draw):
                 state[o["id"]]["q"] = [math.inf]
         tgt = o["id"]
     opts = draw(st.one_of(st.just([]), st.just([]), st.lists(st.sampled_from(S.OPT_NAMES), unique=True, max_size=3).map(sorted)))
+    if wild and rel.startswith("vsl") and draw(st.booleans()):
+        opts = sorted(set(opts) | {draw(st.sampled_from(["positive_init_speed", "positive_init_density"]))})
     return {"spec": sp, "state": state, "rel": rel, "target": tgt, "engine": draw(st.sampled_from(["numpy", "SX", "MX"])), "opts": opts, "wild": wild}
 
 
